@@ -162,3 +162,46 @@ Section G2.
     - rewrite map_map. apply map_ext. intro p. symmetry. apply gather2_gather2; auto.
   Qed.
 End G2.
+
+(* ------------------------------------------------------------------ data may be None *)
+Section GN.
+  Variable D E : Type.
+  Variable d0 : D.
+  Variable e0 : E.
+  Variable body : list Z -> option (list D) -> option (list D) -> list D * list (list E).
+
+  Hypothesis body_len : forall xs ys ws,
+    match ys with None => True | Some y' => length y' = length xs end -> wlen D ws (length xs) ->
+    length (fst (body xs ys ws)) = length xs /\
+    Forall (fun p => length p = length xs) (snd (body xs ys ws)).
+
+  Definition body_some := fun xs (ys : list D) ws => body xs (Some ys) ws.
+  Definition body_none := fun xs (_ : list D) ws => body xs None ws.
+
+  Lemma wrapperN_some x y w :
+    wrapperN D E d0 e0 body false x (Some y) w = wrapperG D E d0 e0 body_some x y w.
+  Proof. reflexivity. Qed.
+
+  (* without data: the wrapper around a body that ignores the (absent) data, on ANY dummy data *)
+  Lemma wrapperN_none x w dummy :
+    wrapperN D E d0 e0 body false x None w = wrapperG D E d0 e0 body_none x dummy w.
+  Proof. reflexivity. Qed.
+
+  Theorem wrapperN_equivariant x y w pi :
+    NoDup x -> match y with None => True | Some y' => length y' = length x end ->
+    wlen D w (length x) -> is_perm pi (length x) ->
+    wrapperN D E d0 e0 body false (gather 0%Z x pi) (option_map (fun y' => gather d0 y' pi) y)
+             (option_map (fun w' => gather d0 w' pi) w)
+    = permute_outG D E d0 e0 pi (wrapperN D E d0 e0 body false x y w).
+  Proof.
+    intros ND Ly Lw Hpi. destruct y as [y'|]; simpl option_map.
+    - rewrite !wrapperN_some.
+      apply (wrapperG_equivariant D E d0 e0 body_some); auto.
+      intros xs ys ws L1 L2. apply (body_len xs (Some ys) ws); auto.
+    - set (dm := map (fun _ : Z => d0) x).
+      rewrite (wrapperN_none (gather 0%Z x pi) _ (gather d0 dm pi)), (wrapperN_none x w dm).
+      apply (wrapperG_equivariant D E d0 e0 body_none); auto.
+      + intros xs ys ws _ L2. apply (body_len xs None ws); simpl; auto.
+      + unfold dm. apply map_length.
+  Qed.
+End GN.
